@@ -18,4 +18,9 @@ CHECKS = {
                      'proved equal to the terms regenerated from operators.py at dimensions 1..4; curl/vector laplacian and '
                      'compositions (div curl = 0, curl grad = 0, div grad = laplacian, curl curl = grad div - vector laplacian) '
                      'as identities in arbitrary jets; zeros for independent components'),
+    'C09': dict(engine=ENGINE_A, technique=TECH_A, note=NOTE_A + '; torch.atan2 enters the conversion theorems only through its contract (hypotheses)', ref='DESIGN.md section 7 C09',
+                text='for arbitrary jets of arbitrary fields and every point off the coordinate singularities, each of the 10 spherical/'
+                     'cylindrical operators regenerated from operators.py equals the local-frame components of the Cartesian object '
+                     '(specification via the inverse Jacobian, itself proved inverse to the derivative of the generated coordinate map); '
+                     'the 4 conversion helpers are mutual inverses modulo 2 pi with the documented ranges'),
 }
